@@ -146,7 +146,18 @@ func (verify *VerifyServerController) handlePairVerifyStart(in util.Container) (
 func (verify *VerifyServerController) handlePairVerifyFinish(in util.Container) (util.Container, error) {
 	verify.step = VerifyStepFinishResponse
 
+	out := util.NewTLV8Container()
+	out.SetByte(TagSequence, verify.step.Byte())
+
 	data := in.GetBytes(TagEncryptedData)
+	if len(data) < 16 {
+		// The encrypted data must at least contain the 16 byte auth tag (MAC)
+		log.Info.Printf("Encrypted data of %d bytes is too short\n", len(data))
+		verify.reset()
+		out.SetByte(TagErrCode, ErrCodeAuthenticationFailed.Byte()) // return error 2
+		return out, nil
+	}
+
 	message := data[:(len(data) - 16)]
 	var mac [16]byte
 	copy(mac[:], data[len(message):]) // 16 byte (MAC)
@@ -154,9 +165,6 @@ func (verify *VerifyServerController) handlePairVerifyFinish(in util.Container) 
 	log.Debug.Println("->     MAC:", hex.EncodeToString(mac[:]))
 
 	decryptedBytes, err := chacha20poly1305.DecryptAndVerify(verify.session.EncryptionKey[:], []byte("PV-Msg03"), message, mac, nil)
-
-	out := util.NewTLV8Container()
-	out.SetByte(TagSequence, verify.step.Byte())
 
 	if err != nil {
 		verify.reset()
